@@ -15,6 +15,7 @@ subset: let / if / assignment / `?`), so an edit of the padding, of floor/ceil, 
 clamping order, of the shift or of the draw position changes the definitions the C02/C13/C14 theorems
 are about.  A missing anchor or a construct outside the subset is a broken tie.
 """
+import os
 import re
 
 PROPS = ['C02', 'C13', 'C14']
@@ -127,6 +128,18 @@ def generate(api):
             raise U("`let bbox = group.layer_bounding_box().transform(transform)?;` not found before the layer box")
         if not re.search(r"let\s+transform\s*=\s*transform\s*\.\s*pre_concat\(group\.transform\(\)\)\s*;", head):
             raise U("`let transform = transform.pre_concat(group.transform());` not found")
+        # the statements before the layer box are exactly: concat the group transform; the non-isolated early return; the
+        # device layer box.  Anything else (a new early-out that skips the layer, ...) is not modelled: broken tie.
+        norm = " ".join(head.split())
+        expected_head = ("{ let transform = transform.pre_concat(group.transform()); "
+                         "if !group.should_isolate() { render_nodes(group, ctx, transform, pixmap); return Some(()); } "
+                         "let bbox = group.layer_bounding_box().transform(transform)?;")
+        if norm != expected_head:
+            raise U("render_group: unexpected statements before the layer box (an early return / skip that the model does not have?): %s"
+                    % norm[len(os.path.commonprefix([norm, expected_head])):][:160])
+        nret = len(re.findall(r"\breturn\b", strip_comments(body)))
+        if nret != 1:
+            raise U("render_group has %d `return` statements, the model knows 1 (the non-isolated path)" % nret)
         piece = strip_comments(body[a0:a1])
         if 'no_filters' in piece or 'max_bbox_arg' in piece:
             raise U("name clash in render_group")
